@@ -46,7 +46,7 @@ def vocab : List (Word × Act) := [
   (w!"vier", unit 4), (w!"vierte", unit 4),
   (w!"fünf", unit 5), (w!"fünfte", unit 5),
   (w!"sechs", unit 6), (w!"sechste", unit 6),
-  (w!"sieben", unit 7), (w!"siebte", unit 7),
+  (w!"sieben", unit 7), (w!"siebte", unit 7), (w!"siebente", unit 7),
   (w!"acht", unit 8), (w!"achte", unit 8),
   (w!"neun", unit 9), (w!"neunte", unit 9),
   (w!"zehn", .put [1,0]), (w!"zehnte", .put [1,0]),
